@@ -60,7 +60,7 @@ func main() {
 			"trie_insertions_under_composite":             1800,
 			"worlds_built_from_configuration":             2300,
 			"worlds_built_direct":                         2300,
-			"hier_exhaustive_placements":                  27000,
+			"hier_exhaustive_placements":                  20000,
 			"put_ops":                                     10000,
 			"get_from_composite_ops":                      6000,
 			"get_capabilities_ops":                        3500,
